@@ -54,7 +54,7 @@ def run_property(prop, tier, seed, verbose=True):
     procs = []
     env = env_for_shards()
     import glob
-    for old in glob.glob(os.path.join(HERE, 'replays', f'{prop}_{tier}_*.json')):
+    for old in glob.glob(os.path.join(HERE, 'replays', f'{prop}_{tier}_{seed}_*.json')):
         os.unlink(old)
     for sh in range(nshards):
         out = os.path.join(tmpd, f'shard{sh}.json')
